@@ -9,6 +9,10 @@ canonical form `canon` of a rooted heap.  Tied to the running CPython on every r
 `out.save` are run through `run`, the in-memory object graph and the graph reloaded in a fresh process are walked by
 `id()` and canonised by the Lean `canon`, and `dump` of the walked heap is compared opcode by opcode with the real pickle.
 
+`snapshotOfHeap` (model) reads the C16 snapshot (`harness/snapshot.py`, the model's `snapshot` op) off a decoded heap; the
+driver op `pickle-snapshot` applies it to the heap decoded from the real bytes and the harness compares the result with the
+model's own snapshot of the compile on every run (validated, no theorem about it here).
+
 What is proved here, strongest first:
 
 * **T1 `canon_iso`** (proved): two rooted heaps with the same canonical form have isomorphic reachable parts — a relation `R`
